@@ -93,11 +93,13 @@ func genCfg(r *rand.Rand) sim.Cfg {
 }
 
 type walker struct {
-	r        *rand.Rand
-	s        *sim.Sim
-	acts     []sim.Action
-	nextName int
-	settings int
+	lagExp     int
+	lagDecided bool
+	r          *rand.Rand
+	s          *sim.Sim
+	acts       []sim.Action
+	nextName   int
+	settings   int
 }
 
 func (w *walker) do(a sim.Action) {
@@ -267,7 +269,23 @@ func (w *walker) step() {
 			add(0.2, sim.Action{Op: "deployavail", B: false})
 		}
 	}
-	add(5, sim.Action{Op: "syncexp"})
+	// a lagging experiment cache right after a restart: the window in which a reconcile still reads the completed experiment
+	if s.StaleCompletedExp() {
+		if !w.lagDecided {
+			w.lagDecided = true
+			if r.Intn(2) == 0 {
+				w.lagExp = 30
+			}
+		}
+	} else {
+		w.lagDecided = false
+	}
+	if w.lagExp > 0 {
+		w.lagExp--
+		add(0.3, sim.Action{Op: "syncexp"})
+	} else {
+		add(5, sim.Action{Op: "syncexp"})
+	}
 	add(5, sim.Action{Op: "syncsug"})
 	add(6, sim.Action{Op: "synctrials"})
 	if p.Exp != nil && p.Exp.Max != nil {
